@@ -357,7 +357,21 @@ impl<'tcx> Cx<'tcx> {
                 ("b", op(&ops.1)),
             ]),
             Rvalue::UnaryOp(u, o) => jobj(vec![("r", esc("un")), ("op", esc(&format!("{:?}", u))), ("o", op(o))]),
-            Rvalue::Discriminant(p) => jobj(vec![("r", esc("discr")), ("pl", self.place(body, p))]),
+            Rvalue::Discriminant(p) => {
+                let mut items: Vec<(&str, String)> = vec![("r", esc("discr")), ("pl", self.place(body, p))];
+                let pty = p.ty(body, self.tcx).ty;
+                if let ty::Adt(adt, _) = pty.kind() {
+                    if adt.is_enum() && adt.variants().len() <= 96 {
+                        let mut vs: Vec<String> = Vec::new();
+                        for (vidx, d) in adt.discriminants(self.tcx) {
+                            vs.push(format!("[{},{}]", d.val, esc(&adt.variant(vidx).name.to_string())));
+                        }
+                        items.push(("vars", jlist(vs)));
+                        items.push(("adt", esc(&self.path(adt.did()))));
+                    }
+                }
+                jobj(items)
+            }
             Rvalue::Aggregate(kind, ops) => {
                 let mut items: Vec<(&str, String)> = vec![("r", esc("agg"))];
                 match &**kind {
